@@ -135,6 +135,9 @@ CORPORA = {
     "d1-red-long": dict(acts=["Reduce", "ArgReduce"], maxlen=1, preset="long", sim=False, lean=True, emit_all=True),
     # map_blocks with a harness function / an importable NumPy function / a wrapper borrowing its identity (C07, C06)
     "d1-mapplain": dict(acts=["MapPlain"], maxlen=1, preset="lean", sim=False, lean=True, emit_all=True),
+    # fused elementwise chains over creation / from_array sources of 7 elements under ALL 64 grids (C21: fast paths that
+    # validate block-independence on a few probe blocks only)
+    "d2-cre7-chain": dict(acts=["Elemwise", "Unary"], maxlen=2, preset="cre7", sim=False, lean=True, workers=4),
     # a node with two fusable dependencies (iteration order of dependency sets must not leak into names / keys)
     "d1-join": dict(acts=["Join"], maxlen=1, preset="lean", sim=False, lean=True, emit_all=True, final_only=True),
     # einsum patterns that choose index letters while parsing (ellipsis, several contracted indices)
